@@ -493,7 +493,7 @@ Fixpoint iter_n {A} (n : nat) (f : A -> A) (x : A) : A := match n with O => x | 
    sequence number *)
 Definition snapshot_cps (y : sys) (srg : N) : list checkpoint :=
   map (fun ks => s2c (snd ks)) (filter (fun ks => N.eqb (s_srg (snd ks)) srg) (y_live y)).
-(* a snapshot means "these are all the sessions of the SRG".  Repaired (fixes/C11_bulk_complete_set.patch): what the
+(* a snapshot means "these are all the sessions of the SRG".  Repaired (proposal fixes/C11_bulk_complete_set.patch, not applied to /repo): what the
    standby holds for the SRG and is not sent is dropped and released, and the reservations of what it was sent are
    made once every release has been applied.  The model states the resulting end state directly: drop (and release)
    every stored session of the SRG, then store the snapshot — same store, leases and free sets as the patch's
@@ -518,7 +518,7 @@ Definition bulk_op (fl : flags) (churn : sys -> sys) (y : sys) (srg : N) (k page
               let last := last_of (y_recv y) srg in
               if f_window fl || (N.leb os (last + 1) && (f_lagdel fl || N.eqb last 0)) then
                 (* the window reaches back to what the standby has — and, repaired
-                   (fixes/C11_bulk_complete_set.patch), the standby has nothing yet (a standby with state gets the
+                   (proposal fixes/C11_bulk_complete_set.patch, not applied to /repo), the standby has nothing yet (a standby with state gets the
                    snapshot: bare checkpoints can convey neither a DELETE nor the order in which an address changed
                    hands): replay it *)
                 let y1 := iter_n (bulk_pages fl qs pagesz * k) churn y in
